@@ -37,6 +37,7 @@ Definition CLASSIFIED : list (string * site_class) := [
   ("gapic/schema/wrappers.py|Method.query_params|set-call|1", Membership);
   ("gapic/schema/wrappers.py|Method.query_params|set-call|2", Membership);
   ("gapic/schema/wrappers.py|Method.query_params|set-call|3", Membership);
+  ("gapic/schema/wrappers.py|Method.query_params|set-comprehension|1", Membership);
   ("gapic/schema/wrappers.py|Method.query_params|set-call|4", Membership);
   ("gapic/schema/wrappers.py|Method._validate_paged_field_size_type|set-literal|1", ConstantLookup);
   ("gapic/schema/wrappers.py|Service.names|set-literal|1", Membership);
@@ -94,7 +95,7 @@ Definition CLASSIFIED : list (string * site_class) := [
   ("gapic/ads-templates/%namespace/%name/__init__.py.j2||sort(attribute='name')|6", KeyedSort);
   ("gapic/ads-templates/docs/%name_%version/services.rst.j2||sort(attribute='name')|1", KeyedSort);
   ("gapic/ads-templates/scripts/fixup_%name_%version_keywords.py.j2||sort(attribute='name')|1", KeyedSort);
-  ("gapic/ads-templates/scripts/fixup_%name_%version_keywords.py.j2||unique(attribute='name')|1", OrderPreserving);
+  ("gapic/ads-templates/scripts/fixup_%name_%version_keywords.py.j2||unique(attribute='name', case_sensitive=True)|1", OrderPreserving);
   ("gapic/ads-templates/tests/unit/gapic/%name_%version/%sub/test_%service.py.j2||sort|1", KeyedSort);
   ("gapic/ads-templates/tests/unit/gapic/%name_%version/%sub/test_%service.py.j2||sort|2", KeyedSort);
   ((sx [103;97;112;105;99;47;97;100;115;45;116;101;109;112;108;97;116;101;115;47;116;101;115;116;115;47;117;110;105;116;47;103;97;112;105;99;47;37;110;97;109;101;95;37;118;101;114;115;105;111;110;47;37;115;117;98;47;116;101;115;116;95;37;115;101;114;118;105;99;101;46;112;121;46;106;50;124;124;115;111;114;116;40;97;116;116;114;105;98;117;116;101;61;34;114;101;115;111;117;114;99;101;95;116;121;112;101;34;41;124;49]%N), KeyedSort);
@@ -140,7 +141,7 @@ Definition CLASSIFIED : list (string * site_class) := [
   ("gapic/templates/%namespace/%name_%version/%sub/types/__init__.py.j2||dictsort|6", KeyedSort);
   ("gapic/templates/docs/%name_%version/services_.rst.j2||sort(attribute='name')|1", KeyedSort);
   ("gapic/templates/scripts/fixup_%name_%version_keywords.py.j2||sort(attribute='name')|1", KeyedSort);
-  ("gapic/templates/scripts/fixup_%name_%version_keywords.py.j2||unique(attribute='name')|1", OrderPreserving);
+  ("gapic/templates/scripts/fixup_%name_%version_keywords.py.j2||unique(attribute='name', case_sensitive=True)|1", OrderPreserving);
   ((sx [103;97;112;105;99;47;116;101;109;112;108;97;116;101;115;47;116;101;115;116;115;47;117;110;105;116;47;103;97;112;105;99;47;37;110;97;109;101;95;37;118;101;114;115;105;111;110;47;37;115;117;98;47;116;101;115;116;95;37;115;101;114;118;105;99;101;46;112;121;46;106;50;124;124;115;111;114;116;40;97;116;116;114;105;98;117;116;101;61;34;114;101;115;111;117;114;99;101;95;116;121;112;101;34;41;124;49]%N), KeyedSort);
   ((sx [103;97;112;105;99;47;116;101;109;112;108;97;116;101;115;47;116;101;115;116;115;47;117;110;105;116;47;103;97;112;105;99;47;37;110;97;109;101;95;37;118;101;114;115;105;111;110;47;37;115;117;98;47;116;101;115;116;95;37;115;101;114;118;105;99;101;46;112;121;46;106;50;124;124;115;111;114;116;40;97;116;116;114;105;98;117;116;101;61;34;114;101;115;111;117;114;99;101;95;116;121;112;101;95;102;117;108;108;95;112;97;116;104;34;44;32;99;97;115;101;95;115;101;110;115;105;116;105;118;101;61;84;114;117;101;41;124;49]%N), KeyedSort);
   ((sx [103;97;112;105;99;47;116;101;109;112;108;97;116;101;115;47;116;101;115;116;115;47;117;110;105;116;47;103;97;112;105;99;47;37;110;97;109;101;95;37;118;101;114;115;105;111;110;47;37;115;117;98;47;116;101;115;116;95;37;115;101;114;118;105;99;101;46;112;121;46;106;50;124;124;115;111;114;116;40;97;116;116;114;105;98;117;116;101;61;34;116;121;112;101;95;110;97;109;101;34;41;124;49]%N), KeyedSort);
